@@ -100,7 +100,7 @@ KW_VARIANTS = {
 
 def pi_cases():
   out = []
-  for toi, cls in (('classic', 'Covariance'), ('tuples', 'ITML')):
+  for toi, cls in (('classic', 'Covariance'), ('tuples', 'ITML'), ('tuples', 'SCML'), ('tuples', 'LSML')):
     for yn, ys in (('X', NoneT()), ('Xy', Arr(1, positive_dims=False))):
       for kv, kws in KW_VARIANTS.items():
         if toi == 'tuples' and kv != 'plain':
@@ -115,7 +115,9 @@ def pi_cases():
             if hist == 'refit':
               attrs['n_features_in_'] = Int(1)
               attrs['preprocessor_'] = AnyRef()
-            out.append(Case('%s-%s-%s-%s-%s' % (toi, yn, kv, prep, hist),
+            if cls in ('SCML', 'LSML') and (yn == 'Xy' or prep != 'none' or hist != 'fresh'):
+              continue
+            out.append(Case('%s-%s-%s-%s-%s%s' % (toi, yn, kv, prep, hist, '' if cls in ('Covariance', 'ITML') else '-' + cls),
                             {'self': Obj(cls, attrs, closed=True), 'X': ArrSym(), 'y': ys, 'type_of_inputs': Str(toi),
                              'kwargs': DictOf(dict(kws))}))
   return out
@@ -132,7 +134,21 @@ def pi_match(env, p):
     return None
   prep = 'none' if isinstance(h.get('preprocessor'), VNone) else 'callable'
   hist = 'refit' if 'n_features_in_' in h else 'fresh'
-  return '%s-%s-%s-%s-%s' % (toi, yn, kv, prep, hist)
+  return '%s-%s-%s-%s-%s' % (toi, yn, kv, prep, hist)       # the ITML-typed case stands for every tuple learner at call sites
+
+
+_TS = {}
+
+
+def tuple_size_of(cls):
+  """the _tuple_size class attribute reached through the MRO of cls (read from the current source)"""
+  if cls not in _TS:
+    import ast
+    from npvc.source import Program
+    prog = Program()
+    owner, node = prog.class_attr(cls, '_tuple_size')
+    _TS[cls] = ast.literal_eval(node) if node is not None else None
+  return _TS[cls]
 
 
 def pi_data(a, r):
@@ -179,7 +195,7 @@ register(Contract(
         'formed-rank': lambda a, r: pi_data(a, r).ndim == pi_rank(a),
         'min-samples': lambda a, r: pi_data(a, r).dim(0) >= pi_min_samples(a),
         'min-features': lambda a, r: pi_data(a, r).dim(pi_rank(a) - 1) >= 1,
-        'tuple-size': lambda a, r: None if a.type_of_inputs != 'tuples' else pi_data(a, r).dim(1) == 2,
+        'tuple-size': lambda a, r: None if a.type_of_inputs != 'tuples' else pi_data(a, r).dim(1) == tuple_size_of(a.self.cls),
         'formed-input-returned-as-is': lambda a, r: z3.Implies(a.X.ndim == pi_rank(a), z3.And(
             pi_data(a, r).term == a.X.term, *[pi_data(a, r).dim(k) == a.X.dim(k) for k in range(pi_rank(a))])),
         'labels-kept': lambda a, r: None if a.y is None else z3.And(r[1].term == a.y.term,
